@@ -103,6 +103,13 @@ def _gen_request(rnd, rid, world, cer_template, universe, fc_owner_pool, big=Fal
         n_des=(1, 4),
         fanout=(0, 2),
     )
+    if rnd.random() < 0.05:  # a segment with more than ten free-text elements
+        segments = [n for n, _ in walk(ahb) if n["t"] == "s"]
+        if segments:
+            wide = rnd.choice(segments)
+            for number in range(rnd.randint(11, 18)):
+                disc = f"Fw{number}-{wide['d']}"
+                wide["des"].append({"t": "f", "d": disc, "e": "X", "input": f"txt-{rid}-{disc}"})
     elements = [n for n, _ in walk(ahb) if n["t"] == "f"]
     for element in elements:
         own = [fc_owner_pool.pop() for _ in range(rnd.choice([1, 1, 2]))] if len(fc_owner_pool) >= 2 else []
